@@ -141,6 +141,10 @@ func (a *absint) linOfAt(t Term, depth int, at ssa.Instruction) linForm {
 					if len(ac.Call.Args) == 1 {
 						return a.linOfAt(Term{V: ac.Call.Args[0], Len: true}, depth-1, at)
 					}
+				case "slices.Grow": // same length, more capacity
+					if len(ac.Call.Args) == 2 {
+						return a.linOfAt(Term{V: ac.Call.Args[0], Len: true}, depth-1, at)
+					}
 				}
 				// a module helper whose result length equals one of its arguments
 				if h := ac.Call.StaticCallee(); h != nil && a.w.IsMod[h] {
@@ -309,6 +313,28 @@ func (a *absint) proveLinear(x, y Term, at ssa.Instruction, need int64) (bool, s
 	if r, ok := a.linRange(d, at); ok && r.lo >= need {
 		return true, fmt.Sprintf("linear: (y - x) ∈ %s", r)
 	}
+	// inequalities that come with the atoms themselves: a rounding helper's result lies in
+	// [arg, arg+k-1] (roundup.go); cap(slices.Grow(s, n)) ≥ len(s) + n
+	exs := a.atomInequalities(at, lx, ly)
+	for _, ex := range exs {
+		rem := d.addScaled(ex.g, -1)
+		if !rem.ok {
+			continue
+		}
+		if r, ok := a.linRange(rem, at); ok && r.lo+ex.slack >= need {
+			return true, fmt.Sprintf("linear: by %s, remainder ∈ %s", ex.why, r)
+		}
+		// ... together with one more of them
+		for _, ex2 := range exs {
+			rem2 := rem.addScaled(ex2.g, -1)
+			if !rem2.ok {
+				continue
+			}
+			if r, ok := a.linRange(rem2, at); ok && r.lo+ex.slack+ex2.slack >= need {
+				return true, fmt.Sprintf("linear: by %s and %s, remainder ∈ %s", ex.why, ex2.why, r)
+			}
+		}
+	}
 	for _, f := range a.tfactsAt(at) {
 		var lo, hi Term
 		slack := int64(0)
@@ -343,4 +369,57 @@ func (a *absint) proveLinear(x, y Term, at ssa.Instruction, need int64) (bool, s
 		}
 	}
 	return false, ""
+}
+
+type atomIneq struct {
+	g     linForm // g ≥ slack
+	slack int64
+	why   string
+}
+
+// atomInequalities: what is known of the atoms of the given forms by what they are.
+func (a *absint) atomInequalities(at ssa.Instruction, forms ...linForm) []atomIneq {
+	var out []atomIneq
+	seen := map[string]bool{}
+	for _, f := range forms {
+		var keys []string
+		for k := range f.atoms {
+			keys = append(keys, k)
+		}
+		sort.Strings(keys)
+		for _, k := range keys {
+			if seen[k] {
+				continue
+			}
+			seen[k] = true
+			t := f.atoms[k]
+			if !t.Len {
+				call, ok := stripIntConv(t.V).(*ssa.Call)
+				if !ok || len(call.Call.Args) != 1 {
+					continue
+				}
+				h := call.Call.StaticCallee()
+				if h == nil || !a.w.IsMod[h] {
+					continue
+				}
+				kk, isR := a.w.roundUpFn(h)
+				if !isR || a.rangeAt(call.Call.Args[0], call, 2).lo < 0 {
+					continue
+				}
+				arg := a.linOfAt(termOf(call.Call.Args[0]), 8, at)
+				self := a.linAtom(t)
+				out = append(out,
+					atomIneq{g: self.addScaled(arg, -1), slack: 0, why: fname(h) + " rounds up: result ≥ argument"},
+					atomIneq{g: arg.addScaled(self, -1), slack: -(kk - 1), why: fmt.Sprintf("%s rounds up: result ≤ argument + %d", fname(h), kk-1)})
+				continue
+			}
+			if t.Cap {
+				if gc, ok := stripIface(a.w.resolveLoad(t.V)).(*ssa.Call); ok && stdCallee(&gc.Call) == "slices.Grow" && len(gc.Call.Args) == 2 {
+					g := a.linAtom(t).addScaled(a.linOfAt(Term{V: gc.Call.Args[0], Len: true}, 8, at), -1).addScaled(a.linOfAt(termOf(gc.Call.Args[1]), 8, at), -1)
+					out = append(out, atomIneq{g: g, slack: 0, why: "cap(slices.Grow(s, n)) ≥ len(s) + n"})
+				}
+			}
+		}
+	}
+	return out
 }
